@@ -1454,7 +1454,9 @@ impl<'a> LL1Validator {
                         .intersection(&sema.predict_sets[&op.syntax()])
                         .cloned()
                         .collect::<BTreeSet<_>>();
-                    if !Self::has_predicate(cst, op) && !intersection.is_empty() {
+                    // a predicate cannot resolve the conflict of a body that derives the empty word
+                    let nullable = sema.first_sets[&op.syntax()].contains(&TokenName::EPSILON);
+                    if (!Self::has_predicate(cst, op) || nullable) && !intersection.is_empty() {
                         let set = format!("with token set: {intersection:?}");
                         diags.push(Diagnostic::ll1_conflict_rep(&regex.span(cst), set));
                     }
@@ -1467,7 +1469,9 @@ impl<'a> LL1Validator {
                         .intersection(&sema.predict_sets[&op.syntax()])
                         .cloned()
                         .collect::<BTreeSet<_>>();
-                    if !Self::has_predicate(cst, op) && !intersection.is_empty() {
+                    // a predicate cannot resolve the conflict of a body that derives the empty word
+                    let nullable = sema.first_sets[&op.syntax()].contains(&TokenName::EPSILON);
+                    if (!Self::has_predicate(cst, op) || nullable) && !intersection.is_empty() {
                         let set = format!("with token set: {intersection:?}");
                         diags.push(Diagnostic::ll1_conflict_rep(&regex.span(cst), set));
                     }
@@ -1480,7 +1484,9 @@ impl<'a> LL1Validator {
                         .intersection(&sema.predict_sets[&op.syntax()])
                         .cloned()
                         .collect::<BTreeSet<_>>();
-                    if !Self::has_predicate(cst, op) && !intersection.is_empty() {
+                    // a predicate cannot resolve the conflict of a body that derives the empty word
+                    let nullable = sema.first_sets[&op.syntax()].contains(&TokenName::EPSILON);
+                    if (!Self::has_predicate(cst, op) || nullable) && !intersection.is_empty() {
                         let set = format!("with token set: {intersection:?}");
                         diags.push(Diagnostic::ll1_conflict_opt(&regex.span(cst), set));
                     }
